@@ -1,6 +1,7 @@
 """C10 - rejections are always SyntaxError at the first offending token."""
 
 import os
+import re
 
 import parglare
 
@@ -47,6 +48,7 @@ def required(tier):
         "lr.disambiguation_errors_located": 200,
         "config.newline_is_not_layout": 50,
         "with_start_position": 1000,
+        "rendered.excerpt_checked": 5000,
         "via_parse_file": 300,
     }
 
@@ -174,6 +176,37 @@ def tmp_file(text):
     return path
 
 
+EXCERPT_LINE = re.compile(r"^\s*(\d+) \|(?: (.*))?$")
+CARET_LINE = re.compile(r"^\s*\| ?(\s*)\^+")
+
+
+def excerpt_mismatch(msg, inp, loc):
+    """The rendered error shows source lines ('  n | text') and a caret line under the last
+    of them.  What it shows must be the reported line and column: returns a description of
+    the mismatch, '' when consistent, None when the text has no such excerpt."""
+    lines = msg.split("\n")
+    for i, ln in enumerate(lines):
+        m = CARET_LINE.match(ln)
+        if not m or i == 0:
+            continue
+        x = EXCERPT_LINE.match(lines[i - 1])
+        if not x:
+            return None
+        shown_no, shown_text, caret_col = int(x.group(1)), x.group(2) or "", len(m.group(1))
+        src = inp.split("\n")
+        if not (1 <= loc.line <= len(src)):
+            return None
+        want_text = src[loc.line - 1].rstrip("\r")
+        if shown_no != loc.line:
+            return "the error is reported at line %d column %d, the excerpt puts the caret under line %d (%r)" % (loc.line, loc.column, shown_no, shown_text)
+        if shown_text != want_text:
+            return "the excerpt shows %r as line %d, the input's line %d is %r" % (shown_text, shown_no, loc.line, want_text)
+        if caret_col != loc.column:
+            return "the error is reported at column %d, the caret stands at column %d" % (loc.column, caret_col)
+        return ""
+    return None
+
+
 def check(ctx, gmon, g, case, name, kind, parser, inp, e, prefix="", via_file=False):
     key = (case["grammar"], name, str(inp), prefix, via_file)
     want_pos = e.farthest + len(prefix)
@@ -231,6 +264,15 @@ def check(ctx, gmon, g, case, name, kind, parser, inp, e, prefix="", via_file=Fa
         ctx.count("lr.resolved_errors_seen")
         return
     loc = err.location
+    if isinstance(inp, str) and not via_file and loc.start_position is not None and loc.start_position < len(inp):
+        # (at the end of the input the excerpt shows the last line there is, which after a
+        # trailing newline is not the - empty - line the position belongs to: not judged)
+        bad = excerpt_mismatch(msg, inp, loc)
+        if bad:
+            ctx.violation("rendered-excerpt-does-not-show-the-position", case, bad)
+            return
+        if bad is not None:
+            ctx.count("rendered.excerpt_checked")
     pos = loc.start_position
     if prefix:
         ctx.count("with_start_position")
